@@ -82,6 +82,80 @@ Proof.
   induction objs as [|o objs IH]; cbn; [reflexivity|]. rewrite (H o) by (left; reflexivity). cbn.
   f_equal. apply IH. intros o' Ho'. apply H. now right.
 Qed.
+
+(* ---- file.read over a raw stream (short reads): whatever the stream delivers per call, the chunks are a
+   prefix of the file; they are the whole file as soon as the loop ran to the empty read; and a stream that
+   delivers at least one byte per call cannot starve the loop ---- *)
+Notation raw_read := (raw_read Byte).
+
+Lemma raw_read_prefix : forall size caps f, exists rest, concat (raw_read size caps f) ++ rest = f.
+Proof.
+  intros size. induction caps as [|c cs IH]; intros f; cbn [JsonLines.raw_read].
+  - exists f. reflexivity.
+  - destruct (Nat.min (Nat.min size c) (length f) =? 0).
+    + exists f. reflexivity.
+    + destruct (IH (skipn (Nat.min (Nat.min size c) (length f)) f)) as [rest H]. exists rest.
+      cbn [concat]. rewrite <- app_assoc, H. apply firstn_skipn.
+Qed.
+
+Theorem raw_read_whole : forall size caps f,
+  length (concat (raw_read size caps f)) = length f -> concat (raw_read size caps f) = f.
+Proof.
+  intros size caps f L. destruct (raw_read_prefix size caps f) as [rest H].
+  assert (L2 : length (concat (raw_read size caps f) ++ rest) = length f) by now rewrite H.
+  rewrite app_length in L2. destruct rest as [|b rest]; [|cbn in L2; lia].
+  now rewrite app_nil_r in H.
+Qed.
+
+Theorem raw_read_enough : forall size caps f,
+  0 < size -> Forall (fun c => 0 < c) caps -> length f <= length caps -> concat (raw_read size caps f) = f.
+Proof.
+  intros size. induction caps as [|c cs IH]; intros f Hs HF HL.
+  - destruct f; [reflexivity|cbn in HL; lia].
+  - cbn [JsonLines.raw_read]. inversion HF as [|c' cs' Hc HF']; subst.
+    destruct (Nat.min (Nat.min size c) (length f) =? 0) eqn:E.
+    + apply Nat.eqb_eq in E. destruct f; [reflexivity|cbn in E; lia].
+    + apply Nat.eqb_neq in E. cbn [concat]. rewrite IH; [apply firstn_skipn|assumption|assumption|].
+      rewrite skipn_length. cbn [length] in HL. lia.
+Qed.
+
+(* every chunk delivered is non-empty and at most `size` bytes long *)
+Lemma raw_read_chunks : forall size caps f, Forall (fun ch => 0 < length ch <= size) (raw_read size caps f).
+Proof.
+  intros size. induction caps as [|c cs IH]; intros f; cbn [JsonLines.raw_read]; [constructor|].
+  destruct (Nat.min (Nat.min size c) (length f) =? 0) eqn:E; [constructor|].
+  apply Nat.eqb_neq in E. constructor; [|apply IH]. rewrite firstn_length. lia.
+Qed.
+
+(* the sizes of the chunks, as computed by the size-level function of the correspondence check *)
+Theorem raw_read_sizes : forall size caps f,
+  map (fun ch => N.of_nat (length ch)) (raw_read size caps f) =
+  raw_sizes (N.of_nat size) (map N.of_nat caps) (N.of_nat (length f)).
+Proof.
+  intros size. induction caps as [|c cs IH]; intros f; cbn [JsonLines.raw_read raw_sizes map]; [reflexivity|].
+  rewrite <- !Nat2N.inj_min.
+  remember (Nat.min (Nat.min size c) (length f)) as n eqn:En.
+  destruct n as [|n'].
+  - reflexivity.
+  - cbn [Nat.eqb]. change (N.of_nat (S n') =? 0)%N with false. cbn [map]. f_equal.
+    + rewrite firstn_length. f_equal. lia.
+    + rewrite IH, skipn_length, Nat2N.inj_sub. reflexivity.
+Qed.
+
+(* composition with a raw stream: the round trip holds whenever the read loop ran to the end of the file,
+   whatever the sizes of the short reads ... *)
+Theorem load_raw_read_dump : forall objs size caps skip ign,
+  length (concat (raw_read size caps (dump_to_file objs))) = length (dump_to_file objs) ->
+  load_chunks skip ign (raw_read size caps (dump_to_file objs)) =
+  (filter (fun o => negb (is_null o)) (skipn skip objs), true).
+Proof. intros. apply load_rechunk_dump. now apply raw_read_whole. Qed.
+
+(* ... which it does when every call delivers at least one byte until the end of the data *)
+Theorem load_raw_stream_dump : forall objs size caps skip ign,
+  0 < size -> Forall (fun c => 0 < c) caps -> length (dump_to_file objs) <= length caps ->
+  load_chunks skip ign (raw_read size caps (dump_to_file objs)) =
+  (filter (fun o => negb (is_null o)) (skipn skip objs), true).
+Proof. intros. apply load_rechunk_dump. now apply raw_read_enough. Qed.
 End JsonLinesProofs.
 
 (* compression=None: the compression stage is the identity and satisfies H_compression *)
